@@ -537,6 +537,9 @@ _ATOMS = (Obj, ClassV, Opaque, Func, Bound, Builtin, Callback, ExtV, ModuleV, Se
 # interpreter mode: `python -W error` (warnings.simplefilter("error")) turns every warnings.warn() call into a raise of its category.
 # Set by sa.check for the second pass of the checks that have one (a tree that never calls warnings.warn has no such pass).
 WARNINGS_AS_ERRORS = False
+# interpreter mode: `python -O`: assert statements are not executed and __debug__ is False.  Set by sa.check for the extra pass of the
+# checks that have one (only for trees that contain an assert statement or name __debug__).
+OPTIMIZE = False
 
 MODELLED_EXTERN_BASES = {"enum.Enum", "enum.IntEnum", "enum.StrEnum", "dill.Pickler", "pickle.Pickler", "pickle._Pickler", "abc.ABC", "typing.Generic", "typing.Protocol"}
 
@@ -1019,6 +1022,8 @@ class Interp:
         fr.nonlocal_decl.update(st.names)
 
     def st_Assert(self, st, fr):
+        if OPTIMIZE:
+            return
         if not self.truth(self.ev(st.test, fr)):
             raise Raised(self.w.B.mkexc("AssertionError", ""))
 
@@ -1986,6 +1991,8 @@ class Interp:
         return mkstr(parts)
 
     def ex_Name(self, e, fr):
+        if e.id == "__debug__":
+            return not OPTIMIZE
         n = mangle(e.id, fr.cls)
         f = fr
         if fr.globals_decl and n in fr.globals_decl:
